@@ -795,10 +795,11 @@ def check_C14(tier):
     # stage 1 (exact mechanism): the column of key k in row r is FastHash64(k, r) % width
     calls = []
     nkeys = 160 if quick else 1024
-    widths = [4, 16, 32, 128]
+    # powers of two and widths of every other bit pattern (a "fast path" for special widths must agree with % width)
+    widths = [4, 16, 32, 128, 3, 5, 20, 33, 40, 25, 65, 200, 1000, 7, 36, 66, 1, 2, 10, 96]
     for i in range(nkeys):
         key = bytes(rng.randrange(256) for _ in range(rng.choice([0, 1, 3, 7, 8, 9, 16, 23])))
-        W = widths[i % 4]
+        W = widths[i % len(widths)]
         kind = ["linear", "log16", "log8"][i % 3]
         depth = [8, 1, 3, 5, 2, 7][i % 6]                  # even and odd depths
         cols = impl.cm_cols(lambda: cm.CountMin(kind, W, depth), key)
@@ -855,6 +856,16 @@ def check_C14(tier):
     cnt = np.zeros((4, 4), int)
     np.add.at(cnt, (c1[:, 0] // 4, c1[:, 0] % 4), 1)
     stat.append({"fn": "joint", "counts": cnt.tolist(), "n": 2048, "W": 4, "out": "ok", "rows": [0, 0], "depth": 1})
+    # widths that are not powers of two (all bit patterns: 9 = 1001b, 36 = 100100b, 25 = 11001b): every row must
+    # use every column about equally -- a square width is laid out as a side x side table for the same test
+    for Wn, side in ((9, 3), (36, 6), (25, 5)):
+        for kind, D in (("linear", 3), ("log8", 2)):
+            cols = np.array([impl.cm_cols(lambda: cm.CountMin(kind, Wn, D), k) for k in keys[:4096]]) - 1
+            for r in range(D):
+                cnt = np.zeros((side, side), int)
+                np.add.at(cnt, (cols[:, r] // side, cols[:, r] % side), 1)
+                stat.append({"fn": "joint", "counts": cnt.tolist(), "n": len(cols), "W": side, "out": "ok", "rows": [r, r],
+                             "depth": D, "width": Wn})
     # Zipf stream: a few keys heavier than e*N/width
     zw, zd, zn = (64, 8, 5000) if quick else (32, 8, 20000)
     sk = cm.CountMinLinear(zw, zd)
